@@ -83,6 +83,9 @@ def u_send_datapoint(ctx, index):
                                                       z3.Implies(accepted, z3.BoolVal(drops == 0))))
   # "never grows beyond that limit"
   ctx.check('C07/sendDatapoint/bound', z3.Implies(z3.ToReal(n0) <= h.hard, z3.ToReal(z3.Length(q)) <= h.hard))
+  # ... also from a queue that self-metrics have pushed above the limit: an ordinary arrival is
+  # accepted only when it still fits below the hard limit
+  ctx.check('C07/sendDatapoint/accepted_only_with_room', z3.Implies(z3.And(accepted, z3.Not(dropped)), z3.ToReal(n0) + 1 <= h.hard))
   # C09: the full signal is raised exactly when an arrival finds the queue at MAX_QUEUE_SIZE
   full_events = h.log.of('events.cacheFull')
   ctx.check('aux/sendDatapoint/full_signal_at_high_watermark',
